@@ -54,7 +54,7 @@ def freqs(ppd: int, np, b: float = 1.0):
 def spectrum(case: dict, st, R0_factor: float = 0.3, a: float = 1.0, b: float = 1.0):
     np = st["np"]
     c = st["parse_cdc"](ladder_cdc(case["k"], case["kind"], case["scale"], R0_factor * case["scale"]))
-    f0 = freqs(case["ppd"], np)
+    f0 = np.logspace(*case["grid"]) if case.get("grid") else freqs(case["ppd"], np)
     Z = c.get_impedances(f0) * a
     return st["DataSet"](f0 * b, Z), c
 
@@ -78,11 +78,24 @@ def run_case(case: dict, st=None) -> Tuple[List[dict], str]:
         viols.append({"key": f"drt|{kind}", "what": what, "case": case, "detail": detail})
 
     try:
+        if case.get("pre"):
+            # the same method run just before, in this process, on a spectrum with equally many points over another frequency range
+            # (other points per decade) or with other impedances: it must leave no trace in the run that is judged
+            pc = dict({k_: v for k_, v in case.items() if k_ != "pre"}, **case["pre"])
+            try:
+                if part == "tr-nnls":
+                    st["drt"](spectrum(pc, st)[0], method="tr-nnls", mode=pc["mode"], lambda_value=pc["lam"])
+                elif part == "lm":
+                    st["drt"](spectrum(pc, st, R0_factor=0.0)[0], method="lm", num_procs=1)
+            except Exception:
+                pass
         if part == "tr-nnls":
             d, _ = spectrum(case, st)
             r = st["drt"](d, method="tr-nnls", mode=case["mode"], lambda_value=case["lam"])
             tau, g = sorted_drt(*r.get_drt_data(), np)
             cfg = f"tr-nnls|{case['mode']}|lambda={'fixed' if case['lam'] > 0 else ('suggested' if case['lam'] == -1.0 else 'l-curve')}"
+            if case.get("pre"):
+                cfg += "|after-a-run-on-another-spectrum(" + ",".join(sorted(case["pre"])) + ")"
             if g.min() < 0:
                 viol(f"negative-gamma|{cfg}", f"TR-NNLS returned a negative gamma ({g.min():.3g}) [{cfg}]")
             area = float(np.trapezoid(g, np.log(tau)))
@@ -217,6 +230,15 @@ def cases(thorough: bool) -> List[dict]:
     ppds = [5, 10, 20]
     for k, scale, ppd, kind, mode, lam in itertools.product((1, 2, 3, 4), scales, ppds, ("RC", "RQ"), ("real", "imaginary"), (1e-3, -1.0, -2.0)):
         out.append({"part": "tr-nnls", "k": k, "scale": scale, "ppd": ppd, "kind": kind, "mode": mode, "lam": lam})
+    # call sequences: 96 points over 9.5, 8.5 and 8 decades (10, 11.2, 11.9 points per decade); other ladder / magnitude on the same grid
+    GR = {"9.5dec": [5.5, -4, 96], "8.5dec": [5.5, -3, 96], "8dec": [5.0, -3, 96]}
+    for a, b in itertools.permutations(GR, 2):
+        for k, kind, mode, lam in itertools.product((2, 3), ("RC", "RQ"), ("real", "imaginary"), (1e-3, -1.0)):   # tau <= 1.5 s: well inside every window
+            out.append({"part": "tr-nnls", "k": k, "scale": 10.0, "ppd": 10, "grid": GR[a], "kind": kind, "mode": mode, "lam": lam, "pre": {"grid": GR[b]}})
+        out.append({"part": "lm", "k": 3, "scale": 10.0, "ppd": 10, "grid": GR[a], "kind": "RC", "pre": {"grid": GR[b]}})
+    for k, kind, mode, lam in itertools.product((2, 4), ("RC", "RQ"), ("real", "imaginary"), (1e-3, -1.0)):
+        out.append({"part": "tr-nnls", "k": k, "scale": 10.0, "ppd": 10, "kind": kind, "mode": mode, "lam": lam, "pre": {"scale": 1e3, "k": 3}})
+        out.append({"part": "tr-nnls", "k": k, "scale": 10.0, "ppd": 10, "kind": kind, "mode": mode, "lam": lam, "pre": {"mode": "imaginary" if mode == "real" else "real"}})
     for k, scale, ppd in itertools.product((1, 2, 3, 4), scales, ppds):
         out.append({"part": "lm", "k": k, "scale": scale, "ppd": ppd, "kind": "RC"})
     for k, scale in itertools.product((1, 2, 3) if not thorough else (1, 2, 3, 4), scales):
@@ -244,7 +266,8 @@ def run(ctx) -> None:
                 "resistance; m(RQ)fit with an exact fit passed in and through the real fitting path from perturbed start values; scalings |Z| x "
                 "{2^10, 1e-2}, f x {2^10, 1e2}. Oracles: gamma >= 0, area = R_pol (2 % RC / 12 % RQ), peaks within one grid step of R*C (RQ: "
                 "factor 2.5), Loewner pairs exact to 1e-5 and no inductive branch, m(RQ)fit total area = R_pol (2 %) and per-element area by superposition = R_k (5 %), incl. (RC) elements (Gaussian branch) and mixed (RQ)/(RC) ladders in both orders, scaling laws (1e-6; "
-                "1e-3 with automatic lambda). Calls that raise are counted and left to C18.")
+                "1e-3 with automatic lambda); TR-NNLS and Loewner runs preceded in the same process by a run on a spectrum with equally many points "
+                "over another range (every ordered pair of three 96-point grids), another ladder/magnitude or the other mode. Calls that raise are counted and left to C18.")
     ctx.exhaustive = True
     ctx.assumptions = ["tolerances calibrated on the unchanged tree (DESIGN C13) and frozen"]
     cs = cases(thorough)
